@@ -317,7 +317,15 @@ public:
 
     /** Signals can be moved */
     Signal(Signal &&other) noexcept = default;
-    Signal &operator=(Signal &&other) noexcept = default;
+    Signal &operator=(Signal &&other) noexcept
+    {
+        if (this != &other) {
+            // The connections this signal held so far end as if it was destructed
+            disconnectAll();
+            m_impl = std::move(other.m_impl);
+        }
+        return *this;
+    }
 
     /**
      * A signal disconnects all slots when it is destructed
